@@ -152,8 +152,10 @@ CHECK_TIERS = {
 }
 CHECK_TIERS["C13"] = {"quick": dict(phases=[("compiled", 0.55), ("twin", 0.45)], count=1000000, run_cap=30),
                       "thorough": dict(phases=[("compiled", 0.8), ("twin", 0.2)], count=20000000, run_cap=60)}
-CHECK_TIERS["C20"] = {"quick": dict(phases=[("compiled", 0.4), ("bounds", 0.6)], count=6000, run_cap=30),
-                      "thorough": dict(phases=[("compiled", 0.4), ("bounds", 0.6)], count=200000, run_cap=60)}
+# (C20: the twin raises IndexError on every positive out-of-range index and needs no compilation:
+# a third, cheap witness that visits all catalogue entries in every batch)
+CHECK_TIERS["C20"] = {"quick": dict(phases=[("compiled", 0.3), ("bounds", 0.45), ("twin", 0.25)], count=6000, run_cap=30),
+                      "thorough": dict(phases=[("compiled", 0.3), ("bounds", 0.5), ("twin", 0.2)], count=200000, run_cap=60)}
 CHECK_TIERS["C19"] = {"quick": dict(phases=[("compiled", 0.7), ("twin", 0.3)], count=2000000, run_cap=15),
                       "thorough": dict(phases=[("compiled", 0.7), ("twin", 0.3)], count=40000000, run_cap=60)}
 CHECK_TIERS["C09"] = {"quick": dict(budget_s=80, phases=[("compiled", 0.6), ("twin", 0.4)], count=2000000, run_cap=30),
